@@ -169,9 +169,7 @@ def handlePowell (args : List Val) : String := Id.run do
 `powellb (which ref|mystic) (cost ..) (x0 (..)) (direc ((..)..)) (xtol f) (ftol f) (maxiter n) (maxfun n) (imax n) (fuel n)`
    a whole `fmin_powell` run from `x0` alone: the line searches are the modelled Brent, the cost is the DSL twin -/
 
-def brentK (grow : Float) : Brent.K Float :=
-  { abs := Float.abs, zero := 0.0, one := 1.0, two := 2.0, half := 0.5, gold := 1.618034, verysmall := 1e-21,
-    growLimit := grow, mintol := 1.0e-11, cg := 0.3819660 }
+def brentK (grow : Float) : Brent.K Float := Brent.floatK grow
 
 def posInf : Float := 1.0 / 0.0
 
